@@ -305,6 +305,7 @@ def run(tier, seed):
             chk.violation('BOUNDED:c06/echo differs from the source', {'witness': [[bytes.fromhex(h).decode('latin1'), w] for h, w in nat['bad_echo'][:4]]}, True)
     chk.native_witness = (nat.get('bad_echo') or []) + (nat.get('bad_pairs') or []) + (nat.get('bad_units') or [])
     clinative.fold(chk, 'writep8')
+    clinative.fold(chk, 'buildlua')
     chk.trust('pyvc symbolic executor for the echo writer body; z3 sequence theory for the induction step; exhaustive native evaluation of the '
               'real encoder / lexer on all one- and two-byte string values')
     chk.assume('string literals: the spelling is a per-byte concatenation and the decoders look at most one byte past an escape of these '
